@@ -187,7 +187,8 @@ theorem absIri_facts {f : String} (h : absIri f = true) :
   split at h
   · cases h
   · cases h
-  · rename_i cs h1 _
+  · cases h
+  · rename_i cs h1 _ _
     refine ⟨?_, by simpa using h⟩
     unfold startsAt
     split
